@@ -84,6 +84,8 @@ def cases(tier, seed):
                 yield dict(res=rs, state=st, scale=scale, tier=tier)
                 yield dict(res=rs, state=st, scale=scale, tier=tier, history='after-log')
                 yield dict(res=rs, state=st, scale=scale, tier=tier, history='empty')
+                if st == 'float-neg' and scale == 'logicle':
+                    yield dict(res=rs, state=st, scale=scale, tier=tier, history='edited')
             if st != 'shifted':
                 yield dict(res=rs, state=st, scale='lists', tier=tier)
 
@@ -200,6 +202,17 @@ def run_case(c):
             d = d[:0]
             if st == 'float-neg':
                 d._c19_min = [0, 0, 0]
+        if c.get('history') == 'edited':
+            # logicle bins are asked for, then the events are changed in place (background subtraction), then asked for again: the
+            # second answer describes the sample as it is now
+            for j in range(3):
+                d.hist_bins(j, None, 'logicle')
+                d.hist_bins(j, 7, 'logicle')
+            d.hist_bins(None, None, 'logicle')
+            shift = [2500.0, 3.0, 777.5]
+            for j in range(3):
+                d[:, j] = np.asarray(d[:, j]) - shift[j]
+            d._c19_min = [m_ - s_ for m_, s_ in zip(d._c19_min, shift)]
         if c.get('history') == 'after-log':
             # the same questions after log-scale bins have been asked for on the same object (answers must not depend on it)
             for j in range(3):
